@@ -31,6 +31,12 @@ package dtls
 //@   ensures @C16: old(s.readOffset < s.readLength) ==> result0 == ite(len(b) < old(s.readLength - s.readOffset), len(b), old(s.readLength - s.readOffset)) && s.readOffset == old(s.readOffset) + result0 && s.readLength == old(s.readLength)
 //@   ensures @C16: old(s.readOffset < s.readLength) ==> (forall i int :: 0 <= i && i < result0 ==> b[i] == old(s.readBuffer[s.readOffset + i]))
 //@   ensures @C16: result1 != nil && !defined(direct) ==> s.readOffset == s.readLength
+// "a stream error is reported only after the data that came with it" - and with no other data: the error remembered
+// for the buffered message is the one the stream returned WITH that message (a nil one included: an error left over
+// from an earlier message must not be reported at the end of an error-free one)
+//@   atcall msgStream).Read#2 after: snap fetchErr := res1
+//@   ensures @C16: defined(fetchErr) ==> s.readErr == fetchErr
+//@   ensures @C16: !defined(direct) && result1 != nil ==> result1 == s.readErr
 
 // ---------------- C16: the listener's registration tables ----------------
 // "each accepted connection is delivered to the caller waiting for that secret and to no other, and an accept that is
